@@ -11,6 +11,7 @@ import (
 	"os"
 	"sort"
 	"strings"
+	"unicode/utf8"
 
 	"github.com/mattn/go-runewidth"
 	"golang.org/x/term"
@@ -625,7 +626,12 @@ func abbreviate(s string, maxLen int) string {
 	if maxLen <= 1 {
 		return "…"
 	}
-	return s[:maxLen-1] + "…"
+	// Cut on a character boundary: slicing inside a multi-byte character would emit invalid UTF-8.
+	cut := maxLen - 1
+	for cut > 0 && !utf8.RuneStart(s[cut]) {
+		cut--
+	}
+	return s[:cut] + "…"
 }
 
 // stateIcon returns the appropriate icon for a task's state.
